@@ -161,6 +161,108 @@ theorem C28_parseExpr_terminates (c : Cx α) (hwf : c.env.wf = true) (hchk : che
   | fail n e => simp
   | abort a => cases a <;> simp_all
 
+/-! ## the model of the compile-time check never runs out of its own fuel -/
+
+theorem firstsOf_error (mf : G → FRes) : ∀ (opts : List G) (o : FRes), firstsOf mf opts = .error o →
+    (∃ g ∈ opts, mf g = o) ∧ ∀ fs me, o ≠ .ok fs me := by
+  intro opts
+  induction opts with
+  | nil => intro o h; simp [firstsOf] at h
+  | cons g gs ih =>
+    intro o h
+    cases hm : mf g with
+    | ok f1 me1 =>
+      cases hr : firstsOf mf gs with
+      | ok r => simp [firstsOf, hm, hr] at h
+      | error e =>
+        simp only [firstsOf, hm, hr, Except.error.injEq] at h
+        subst h
+        obtain ⟨⟨g', hg', h'⟩, h2⟩ := ih e hr
+        exact ⟨⟨g', by simp [hg'], h'⟩, h2⟩
+    | recur n =>
+      simp only [firstsOf, hm, Except.error.injEq] at h
+      subst h
+      exact ⟨⟨g, by simp, hm⟩, by simp⟩
+    | fuel =>
+      simp only [firstsOf, hm, Except.error.injEq] at h
+      subst h
+      exact ⟨⟨g, by simp, hm⟩, by simp⟩
+
+theorem firstFuel_ge (env : Env) (k : Nat) (hk : k ≤ env.maxSize + 2) :
+    env.length * (env.maxSize + 1) + k ≤ env.firstFuel := by
+  unfold Env.firstFuel
+  rw [Nat.succ_mul]
+  omega
+
+theorem allChoices_mem : ∀ {env : Env} {opts : List G}, opts ∈ env.allChoices →
+    ∃ x b, (x, b) ∈ env ∧ opts ∈ b.choices := by
+  intro env
+  induction env with
+  | nil => intro opts h; simp [Env.allChoices] at h
+  | cons e rest ih =>
+    intro opts h
+    rcases e with ⟨k, v⟩
+    simp only [Env.allChoices, List.mem_append] at h
+    rcases h with h | h
+    · exact ⟨k, v, by simp, h⟩
+    · obtain ⟨x, b, hm, hc⟩ := ih h
+      exact ⟨x, b, by simp [hm], hc⟩
+
+theorem checkChoices_no_fuel (env : Env) : ∀ (cs : List (List G)),
+    (∀ opts ∈ cs, ∀ g ∈ opts, g.size ≤ env.maxSize) → checkChoices env cs ≠ .fuel := by
+  intro cs
+  induction cs with
+  | nil => intro _; simp [checkChoices]
+  | cons opts rest ih =>
+    intro h
+    have hrest := ih (fun o ho => h o (by simp [ho]))
+    simp only [checkChoices]
+    cases hf : firstsOf (fun g => firstF env.firstFuel env g) opts with
+    | ok r => simpa using hrest
+    | error o =>
+      obtain ⟨⟨g, hg, hm⟩, hnok⟩ := firstsOf_error _ opts o hf
+      have hsz := h opts (by simp) g hg
+      have hnf : firstF env.firstFuel env g ≠ .fuel :=
+        firstF_no_fuel env.maxSize _ env g (fun x b hb => maxSize_mem x b hb) (firstFuel_ge env g.size (by omega))
+      cases o with
+      | ok fs me => exact absurd rfl (hnok fs me)
+      | recur n => simp
+      | fuel => exact absurd hm hnf
+
+theorem checkRules_no_fuel (env : Env) : ∀ (l : List (Bytes × G)), checkRules env l ≠ .fuel := by
+  intro l
+  induction l with
+  | nil => simp [checkRules]
+  | cons e rest ih =>
+    rcases e with ⟨name, b⟩
+    simp only [checkRules]
+    have hnf : firstF env.firstFuel env (.var name) ≠ .fuel :=
+      firstF_no_fuel env.maxSize _ env (.var name) (fun x b hb => maxSize_mem x b hb)
+        (firstFuel_ge env 1 (by omega))
+    cases hm : firstF env.firstFuel env (.var name) with
+    | ok fs me => simpa using ih
+    | recur n => simp
+    | fuel => exact absurd hm hnf
+
+/-- The fuel `Env.firstFuel` given to `First` by the model of the compile-time checks always
+suffices: `checkAll` answers `ok` or `recursive variable`, as the real `cl.NewEx` does. -/
+theorem C28_check_never_fuel (env : Env) : checkAll env ≠ .fuel := by
+  unfold checkAll
+  have h1 : checkChoices env env.allChoices ≠ .fuel := by
+    apply checkChoices_no_fuel
+    intro opts hopts g hg
+    obtain ⟨x, b, hb, hc⟩ := allChoices_mem hopts
+    have := choices_size b.size b (Nat.le_refl _) opts hc g hg
+    have := maxSize_mem x b hb
+    omega
+  split
+  · exact checkRules_no_fuel env env
+  · rename_i o hne
+    cases ho : checkChoices env env.allChoices with
+    | ok => simp [ho] at hne
+    | recur n => simp
+    | fuel => exact absurd ho h1
+
 /-! ## Non-vacuity: the hypotheses hold for concrete grammars, and the two grammars that
 used to diverge (DESIGN §6) are now handled -/
 
